@@ -23,7 +23,7 @@ RULE = ('output specs: port trees to depth 2 (thorough 3) over names {a, ab, n, 
 RULE += ('; also: list outputs mutated after acceptance, namespace validators objecting to the empty mapping, identity of the objects the future reports')
 ASSUMPTIONS = ['a fresh Process class per case (emitting into a dynamic namespace adds namespaces to the class spec)',
                'reference model written from the statement; namespace creation by earlier emissions is tracked by the model']
-REQUIRED = ['emissions', 'accepted', 'rejected', 'rejected_valueerror', 'dynamic_accepted', 'nested_paths', 'unchanged_checks', 'listener_checks',
+REQUIRED = ['own_rule_two_levels_down', 'emissions', 'accepted', 'rejected', 'rejected_valueerror', 'dynamic_accepted', 'nested_paths', 'unchanged_checks', 'listener_checks',
             'success/true', 'success/false_by_outputs', 'dict_values', 'identity_checks', 'late_emissions', 'other_separator']
 BOUNDS = {'quick': '300 specs x 12 emission sequences', 'thorough': '3000 specs x 25 sequences'}
 NAMES = ['a', 'ab', 'n', 'x']
@@ -83,7 +83,7 @@ def rand_emissions(rng, spec):
             if d[0] == 'ns' and rng.random() < 0.6:
                 path = path + '.' + rng.choice(['k', 'x', 'a', 'ab'])
                 if rng.random() < 0.3:
-                    path += '.' + rng.choice(['j', 'a'])
+                    path += '.' + rng.choice(['j', 'a', 'k'])
                 vt = d[1].get('valid_type')
             else:
                 vt = d[1].get('valid_type')
@@ -134,7 +134,15 @@ def _kw(attrs):
 
 
 class SlashNamespace(PortNamespace):
+    """The namespace class of an application: levels separated by '/', and a rule of its own about the names of dynamic ports
+    ('k' is refused) -- which holds in every namespace of the spec, also in those an emission creates on the way."""
     NAMESPACE_SEPARATOR = '/'
+
+    def validate_dynamic_ports(self, port_values, breadcrumbs=()):
+        if isinstance(port_values, dict) and 'k' in port_values:
+            from plumpy.ports import PortValidationError
+            return PortValidationError("the name 'k' is not allowed for a dynamic port", self.NAMESPACE_SEPARATOR.join((*breadcrumbs, 'k')))
+        return super().validate_dynamic_ports(port_values, breadcrumbs)
 
 
 class SlashSpec(plumpy.ProcessSpec):
@@ -213,8 +221,9 @@ def make_class(spec, slash=False):
 
 # --- reference model -----------------------------------------------------------------------
 class Model:
-    def __init__(self, spec):
+    def __init__(self, spec, own_namespace_class=False):
         self.spec = copy.deepcopy(spec)  # grows when emissions create namespaces
+        self.own_namespace_class = own_namespace_class
 
     def emit(self, path, value):
         """-> ('accept', dynamic) or ('reject', reason, valueerror?)."""
@@ -249,6 +258,8 @@ class Model:
             return ('accept', False)
         if not self._dynamic(ns):
             return ('reject', 'undeclared port in non-dynamic namespace', True)
+        if self.own_namespace_class and leaf == 'k':
+            return ('reject', 'dynamic port name refused by the namespace class of the spec', True)
         vt = ns[1].get('valid_type')
         if vt is not None and not c11._leaves_ok(value, TYPES[vt]):
             return ('reject', 'dynamic value of wrong type', True)
@@ -303,7 +314,8 @@ def run_case(case):
     cls = make_class(spec, slash=bool(case.get('slash')))
     emissions = [[p, c11._real(v)] for p, v in case['emissions']]
     obs = {'emissions': len(emissions), 'accepted': 0, 'rejected': 0, 'rejected_valueerror': 0, 'dynamic_accepted': 0, 'nested_paths': 0,
-           'unchanged_checks': 0, 'listener_checks': 0, 'success': {}, 'dict_values': 0, 'other_separator': int(bool(case.get('slash')))}
+           'unchanged_checks': 0, 'listener_checks': 0, 'success': {}, 'dict_values': 0, 'other_separator': int(bool(case.get('slash'))),
+           'own_rule_two_levels_down': int(bool(case.get('slash')) and any(p != '@mutate' and p.count('.') >= 2 and p.endswith('.k') for p, _v in emissions))}
     viol = []
     with Driver(3000) as drv:
         try:
@@ -337,7 +349,7 @@ def run_case(case):
         is_successful = proc.is_successful
         result = proc.result() if state == 'finished' else None
         exc_desc = repr(proc.exception()) if state == 'excepted' else None
-    model = Model(spec)
+    model = Model(spec, own_namespace_class=bool(case.get('slash')))
     exp_outputs = {}
     exp_emitted = []
     shape = c11._shape(spec)
